@@ -587,7 +587,13 @@ func ruleVocabularies(c *Ctx, pf *parserFacts) {
 
 // ruleUnknownFields: R10.4.
 func ruleUnknownFields(c *Ctx, pf *parserFacts) {
-	var decode, disallow *ssa.Call
+	isToml := func(callee *ssa.Function, name string) bool {
+		return callee != nil && callee.Pkg != nil && strings.Contains(callee.Pkg.Pkg.Path(), "go-toml") && callee.Name() == name
+	}
+	// the decode site in ParseData: a direct Decode call, or a call of a repository helper that calls Decode on its parameter
+	var decodeSite *ssa.Call
+	var decoder ssa.Value
+	var disallow *ssa.Call
 	for _, b := range pf.fn.Blocks {
 		for _, in := range b.Instrs {
 			call, ok := in.(*ssa.Call)
@@ -595,24 +601,33 @@ func ruleUnknownFields(c *Ctx, pf *parserFacts) {
 				continue
 			}
 			callee := call.Call.StaticCallee()
-			if callee == nil || callee.Pkg == nil || !strings.Contains(callee.Pkg.Pkg.Path(), "go-toml") {
-				continue
-			}
-			switch callee.Name() {
-			case "Decode":
-				decode = call
-			case "DisallowUnknownFields":
+			switch {
+			case isToml(callee, "Decode"):
+				decodeSite, decoder = call, call.Call.Args[0]
+			case isToml(callee, "DisallowUnknownFields"):
 				disallow = call
+			case callee != nil && pf.p.OwnedFunc(callee) && callee.Blocks != nil:
+				for _, hb := range callee.Blocks {
+					for _, hi := range hb.Instrs {
+						if hc, ok := hi.(*ssa.Call); ok && isToml(hc.Call.StaticCallee(), "Decode") {
+							for pi, prm := range callee.Params {
+								if hc.Call.Args[0] == ssa.Value(prm) && pi < len(call.Call.Args) {
+									decodeSite, decoder = call, call.Call.Args[pi]
+								}
+							}
+						}
+					}
+				}
 			}
 		}
 	}
 	key := "config.ParseData/DisallowUnknownFields-before-Decode"
-	if decode == nil {
-		c.Undec("R10.4", key, c.P.Pos(pf.fn.Pos()), "no Decode call of the TOML decoder found in ParseData")
+	if decodeSite == nil {
+		c.Undec("R10.4", key, c.P.Pos(pf.fn.Pos()), "no Decode call of the TOML decoder found in ParseData (directly or through a helper)")
 		return
 	}
-	ok := disallow != nil && disallow.Call.Args[0] == decode.Call.Args[0] && (disallow.Block() == decode.Block() && instrBefore(disallow, decode) || disallow.Block() != decode.Block() && disallow.Block().Dominates(decode.Block()))
-	c.Check(ok, "R10.4", key, c.P.Pos(decode.Pos()), "called on the same decoder, on every path before Decode", "Decode is not preceded by DisallowUnknownFields on the same decoder: unknown fields in a file are silently ignored")
+	ok := disallow != nil && disallow.Call.Args[0] == decoder && (disallow.Block() == decodeSite.Block() && instrBefore(disallow, decodeSite) || disallow.Block() != decodeSite.Block() && disallow.Block().Dominates(decodeSite.Block()))
+	c.Check(ok, "R10.4", key, c.P.Pos(decodeSite.Pos()), "called on the same decoder, on every path before Decode", "Decode is not preceded by DisallowUnknownFields on the same decoder: unknown fields in a file are silently ignored")
 }
 
 func instrBefore(a, b ssa.Instruction) bool {
